@@ -403,7 +403,7 @@ pub(super) fn read_genotype_values(
 
     match read_type(src).map_err(DecodeError::InvalidType)? {
         Some(Type::Int8(len)) => match len {
-            0 => values.push(None),
+            0 => values.resize(sample_count, None),
             1 => {
                 for _ in 0..sample_count {
                     let value = read_i8(src)
